@@ -38,11 +38,22 @@ PosRow(g, row) == [ j \in 1..Len(row) |->
 GotFace(g, f) == PosRow(g, Unpadded(g.tbl[f]))
 FaceAgrees(orient, a, b) == SameCycle(a, b) \/ (orient = "free" /\ SameCycle(Rev(a), b))
 
-FaceCount(r)  == r.got.n_face = Len(r.exp) /\ Len(r.got.tbl) = Len(r.exp)
+\* r.complete[f]: row f of the source is a whole face.  Only a regional MPAS dual has other rows (a vertex
+\* some of whose cells are absent): the property does not say whether such a row is a face, so a Grid may
+\* present every row (the present cells, padded at the end) or only the complete ones - in the source's order.
+CompleteRows(r) == SelectSeq([ k \in 1..Len(r.exp) |-> k ], LAMBDA k : r.complete[k])
+AllComplete(r)  == \A k \in 1..Len(r.exp) : r.complete[k]
+FaceCount(r)  == /\ Len(r.got.tbl) = r.got.n_face
+                 /\ (r.got.n_face = Len(r.exp) \/ (~AllComplete(r) /\ r.got.n_face = Len(CompleteRows(r))))
 \* same corner positions in the same cyclic order, face by face in the source's order
 FacesMatch(r) == FaceCount(r) =>
-                   \A f \in 1..Len(r.exp) : FaceAgrees(r.orient, GotFace(r.got, f), Unpadded(r.exp[f]))
-SameStart(r)  == FaceCount(r) /\ \A f \in 1..Len(r.exp) : GotFace(r.got, f) = Unpadded(r.exp[f])
+                   IF r.got.n_face = Len(r.exp)
+                   THEN \A f \in 1..Len(r.exp) :
+                          IF r.complete[f] THEN FaceAgrees(r.orient, GotFace(r.got, f), Unpadded(r.exp[f]))
+                          ELSE Range(GotFace(r.got, f)) = Range(Unpadded(r.exp[f])) /\ Len(GotFace(r.got, f)) = Len(Unpadded(r.exp[f]))
+                   ELSE LET c == CompleteRows(r) IN
+                        \A k \in 1..Len(c) : FaceAgrees(r.orient, GotFace(r.got, k), Unpadded(r.exp[c[k]]))
+SameStart(r)  == FaceCount(r) /\ r.got.n_face = Len(r.exp) /\ \A f \in 1..Len(r.exp) : GotFace(r.got, f) = Unpadded(r.exp[f])
 
 (* ---- standard form ------------------------------------------------------------ *)
 StdDtype(g) == \A k \in DOMAIN g.dtype_ok : g.dtype_ok[k]      \* one flag per index table presented
@@ -91,6 +102,11 @@ CarriedFaceFace(r) ==
 \* centre of expected face k = the centre the source gives its face perm[k]
 CarriedCentres(r) == Has(r.carried, "centres") => (Has(r.got, "centres") /\ r.got.centres = r.perm)
 CarriedCounts(r)  == Has(r.carried, "npf") => (Has(r.got, "npf") /\ r.got.npf = r.carried.npf)
+\* per-element quantities (abstract tags, see Dialects.tla): the values the source gives, under the name that
+\* has the same meaning, in element order
+CarriedAreas(r)        == Has(r.carried, "face_areas") => (Has(r.got, "face_areas") /\ r.got.face_areas = r.carried.face_areas)
+CarriedEdgeNodeDist(r) == Has(r.carried, "edge_node_dist") => (Has(r.got, "edge_node_dist") /\ r.got.edge_node_dist = r.carried.edge_node_dist)
+CarriedEdgeFaceDist(r) == Has(r.carried, "edge_face_dist") => (Has(r.got, "edge_face_dist") /\ r.got.edge_face_dist = r.carried.edge_face_dist)
 
 CaseClauses(r) ==
   [ FaceCount       |-> FaceCount(r),
@@ -109,7 +125,10 @@ CaseClauses(r) ==
     CarriedNodeFace |-> CarriedNodeFace(r),
     CarriedFaceFace |-> CarriedFaceFace(r),
     CarriedCentres  |-> CarriedCentres(r),
-    CarriedCounts   |-> CarriedCounts(r) ]
+    CarriedCounts   |-> CarriedCounts(r),
+    CarriedAreas    |-> CarriedAreas(r),
+    CarriedEdgeNodeDist |-> CarriedEdgeNodeDist(r),
+    CarriedEdgeFaceDist |-> CarriedEdgeFaceDist(r) ]
 
 (* ---- sample files (code -> spec) ------------------------------------------------------ *)
 \* every face has at least three corners
